@@ -640,11 +640,22 @@ def check_tts(ctx, repo):
         if len(star) == 1 and isinstance(star[0].value, ast.Name):
             vals = astq.assigned_values(fn, star[0].value.id)
             tuples = []
+            sname = star[0].value.id
             for v in vals:
                 for t in ([v.body, v.orelse] if isinstance(v, ast.IfExp) else [v]):
-                    if isinstance(t, ast.Tuple):
+                    if isinstance(t, (ast.Tuple, ast.List)):
                         tuples.append([dotted(e) for e in t.elts])
+            # a list that is grown afterwards: every growth appends X after y
+            grown = [x for x in astq.calls(fn) if isinstance(x.func, ast.Attribute) and dotted(x.func.value) == sname
+                     and x.func.attr in ("append", "extend", "insert")]
+            for gcall in grown:
+                if gcall.func.attr == "append" and len(gcall.args) == 1 and dotted(gcall.args[0]) == "X":
+                    tuples.append(["y", "X"])
+                else:
+                    tuples.append(["?"])
             ok = bool(tuples) and all(t in (["y"], ["y", "X"]) for t in tuples)
+            if not ok and any("?" in t or None in t for t in tuples):
+                ok = None
         elif not star:
             ok = [dotted(a) for a in c.args] in (["y"], ["y", "X"])
         ctx.check(ok, "R5", "temporal_train_test_split:series-order", "series passed as (y[, X])",
@@ -731,7 +742,17 @@ def check_tts(ctx, repo):
     ats_ = sorted(_ao(pcr.raises))
     rel_a = [a for a in ats_ if a.endswith(".is_relative")]
     oos_a = [a for a in ats_ if "is_all_out_of_sample" in a]
-    if len(rel_a) == 1 and len(oos_a) == 1 and len(ats_) <= 8:
+    if not oos_a:
+        from ._c20_specs import helper_rejects_in_sample as _hr
+        hr = _hr(repo, mod, f2)
+        if hr is not None:
+            ctx.check(hr, "R5", "_split_by_fh:in-sample-rejected", "a relative horizon with in-sample steps is rejected (in the helper "
+                      "the relative branch delegates to)", "the helper of the relative branch does not reject in-sample steps", ctx.loc(mod, f2),
+                      witness={"fh": [0, 1]})
+            oos_a = None
+    if oos_a is None:
+        pass
+    elif len(rel_a) == 1 and len(oos_a) == 1 and len(ats_) <= 8:
         from itertools import product as _pr
         others = [a for a in ats_ if a not in rel_a + oos_a]
         okr = all(_evl2(pcr.raises, dict(zip(others, v), **{rel_a[0]: True, oos_a[0]: False})) for v in _pr((False, True), repeat=len(others)))
